@@ -26,7 +26,12 @@
 //!   c18  allocator public surface (`Factory` on every pooled type, `Reset`, wrapper allocator), pool balance
 //!   c19  classical `GraphState` constructors, `Clone`, `Debug`, `do_spin_flip`, `should_flip`, energy
 //!   all  everything above
-//! Every case line: `CASE nt | <mode> <label> <inputs…> | ok | ok/FAIL:<why>`.
+//! Witness modes of two observations (never part of `all`, not wired into any check): `nthwit` (the provided
+//! `LoopUpdater::get_nth_p` has no wrap-around although `make_loop_update(Some(n))` asks for the n-th of n ops) and `partemp1`
+//! (with one replica `parallel_tempering_step` draws from the container rng, `tempering_step` does not).
+//! Every case line: `CASE nt | <mode> <label> <inputs…> | ok | ok/FAIL:<why>`; every repetition of a mode runs inside a panic
+//! guard (a library panic outside an individually guarded call is a failing case, never a crash); `STAT api.<Owner::name> <n>`
+//! counts the calls per public function. Inputs printed never depend on `thread_rng` (deterministic in `--seed`).
 
 #![allow(clippy::too_many_arguments, clippy::type_complexity)]
 
@@ -51,7 +56,6 @@ type TC = TemperingContainer<SplitMix64, G>;
 type TQ = TemperingContainer<SplitMix64, Q>;
 
 const EPS: f64 = std::f64::EPSILON;
-const GAMMA64: u64 = 0x9E3779B97F4A7C15;
 
 // ------------------------------------------------------------------------------------------------------------------
 // bookkeeping: coverage counters, checks, case emission
@@ -205,19 +209,6 @@ fn json_same(what: &str, a: &Value, b: &Value, skip: &[&str]) -> Result<(), Stri
 fn rng_of<T: serde::Serialize>(x: &T) -> SplitMix64 {
     SplitMix64::new(js(x)["rng"]["s"].as_u64().expect("sampler rng state"))
 }
-fn words_between(a: u64, b: u64) -> u64 {
-    // SplitMix64 advances its state by a fixed odd constant per word
-    let inv = {
-        // modular inverse of GAMMA64 mod 2^64 (Newton)
-        let mut x: u64 = GAMMA64;
-        for _ in 0..6 {
-            x = x.wrapping_mul(2u64.wrapping_sub(GAMMA64.wrapping_mul(x)));
-        }
-        x
-    };
-    b.wrapping_sub(a).wrapping_mul(inv)
-}
-
 // ------------------------------------------------------------------------------------------------------------------
 // scan of a container (definition side of every "getter = scan" oracle)
 // ------------------------------------------------------------------------------------------------------------------
@@ -276,6 +267,7 @@ fn propagate(s: &[Option<SOp>], state: &[bool]) -> Result<(Vec<Vec<bool>>, Vec<b
 
 /// The Hamiltonian as the oracle sees it (closures over the real code's public matrix-element functions).
 struct HamView<'a> {
+    #[allow(dead_code)]
     token: String,
     nbonds: usize,
     edge: Box<dyn Fn(usize) -> (Vec<usize>, bool) + 'a>,
@@ -668,6 +660,26 @@ fn gen_terms(r: &mut SplitMix64, kind: u64, nvars: usize) -> Vec<Term> {
                 t.push(Term { ctor: 2, mat: vec![1.0, 0.0, 0.25, 1.0], vars: vec![v, v + 1] });
             }
         }
+        4 => {
+            // a symmetry-breaking single-site field term registered first / in the middle / last among Ising-symmetric two-site
+            // terms and constant single-site terms (cluster edges exist): plain cluster updates must never run
+            let j = *r.pick(&[0.5, 1.0, 1.5]);
+            let c = *r.pick(&[0.5, 1.0, 2.0]);
+            let hf = *r.pick(&[0.5, 1.0, -0.5, -1.0]);
+            let ferro = r.coin();
+            for v in 0..nvars - 1 {
+                t.push(Term { ctor: 2, mat: if ferro { vec![j, 0.0, 0.0, j] } else { vec![0.0, j, j, 0.0] }, vars: vec![v, v + 1] });
+            }
+            for v in 0..nvars {
+                t.push(Term { ctor: 0, mat: vec![c, c, c, c], vars: vec![v] });
+            }
+            let field = Term { ctor: 1, mat: vec![-hf, 0.0, 0.0, hf], vars: vec![r.below(nvars as u64) as usize] };
+            match r.below(3) {
+                0 => t.insert(0, field),
+                1 => t.insert(t.len() / 2, field),
+                _ => t.push(field),
+            }
+        }
         _ => {
             // three-variable FULL matrix by Hamming distance + two-site full/diagonal terms + site terms (some constant)
             let d = *r.pick(&[0.5, 1.0, 2.0]);
@@ -739,7 +751,7 @@ struct GenSpec {
     heatbath: bool,
 }
 fn gen_generic_spec(r: &mut SplitMix64) -> GenSpec {
-    let kind = r.below(4);
+    let kind = r.below(5);
     let nvars = if kind == 3 { r.range(3, 4) as usize } else { r.range(2, 4) as usize };
     let terms = gen_terms(r, kind, nvars);
     let loops = kind == 0 || kind == 3 || r.coin();
@@ -1759,6 +1771,13 @@ fn diff_diag_ising(s: &IsingSpec, g: &G, beta: f64) {
         c.res(check_config(&mb, &st0, &hv));
         c.res(check_nav(&mb, hv.nbonds));
         c.res(check_ising(&ga, &ghost));
+        // a container with spare slots beyond the sweep length: the sweep depends on `cutoff` only
+        let (mut me, mut se, mut re) = (g.get_manager_ref().clone(), st0.clone(), rng0.clone());
+        me.set_cutoff(max(cutoff, me.get_cutoff()) + 7);
+        if pooled(&mut c, "make_diagonal_update_with_rng_and_state_ref (spare slots)", &mut me, |m| m.make_diagonal_update_with_rng_and_state_ref(cutoff, beta, &mut se, &ham, &mut re)).is_some() {
+            c.eq("C08 sweep over `cutoff` slots of a longer container: operators", &opslist(&me), &opslist(&mb));
+            c.eq("C08 … rng", &re.s, &rb.s);
+        }
     }
     case(!before.is_empty(), &format!("c06 diag-variants {}", ising_ctx(s, g, beta)), c.done());
 }
@@ -1830,9 +1849,25 @@ fn diff_heatbath_ising(mode: &str, s: &IsingSpec, g: &G, beta: f64, manual: bool
             c.eq("C08 … state", &sd, &sb);
         }
     }
+    if rbr.is_some() {
+        // a container with spare slots beyond the sweep length: the sweep depends on `cutoff` only
+        let (mut me, mut se, mut re) = (g.get_manager_ref().clone(), st0.clone(), rng0.clone());
+        me.set_cutoff(max(cutoff, me.get_cutoff()) + 5);
+        if pooled(&mut c, "make_heatbath_diagonal_update_with_rng_and_state_ref (spare slots)", &mut me, |m| {
+            m.make_heatbath_diagonal_update_with_rng_and_state_ref(cutoff, beta, &mut se, &ham, &bw, &mut re)
+        })
+        .is_some()
+        {
+            c.eq("C08 heat-bath sweep over `cutoff` slots of a longer container: operators", &opslist(&me), &opslist(&mb));
+            c.eq("C08 … rng", &re.s, &rb.s);
+        }
+    }
     case(!before.is_empty(), &format!("{} heatbath-variants {}", mode, ising_ctx(s, g, beta)), c.done());
 }
 
+fn opslist<M: OpContainer>(m: &M) -> Vec<SOp> {
+    scan(m).into_iter().flatten().collect()
+}
 fn long_ops(s: &[Option<SOp>], first_long: usize) -> Vec<SOp> {
     s.iter().flatten().filter(|o| o.bond >= first_long).cloned().collect()
 }
@@ -2058,6 +2093,17 @@ fn diff_generic(mode: &str, r: &mut SplitMix64, gs: &GenSpec, q: &Q, beta: f64, 
     // diagonal
     {
         let mut c = Chk::new();
+        // the heat-bath table: per bond the largest diagonal weight (over ALL 2^k diagonal patterns), cumulative sums
+        let rows = js(&bw)["max_weight_and_cumulative"].as_array().cloned().unwrap_or_default();
+        c.eq("C02 bond weight rows", &rows.len(), &table.len());
+        let mut cum = 0.0;
+        for (b, row) in rows.iter().enumerate() {
+            let mx = patterns(table[b].vars.len()).iter().map(|p| (hv.w)(b, p, p)).fold(0.0, f64::max);
+            cum += mx;
+            c.ck(row[0].as_u64() == Some(b as u64) && row[1].as_f64() == Some(mx) && row[2].as_f64() == Some(cum), || {
+                format!("C02/C08 bond weight row {} = {} expected [{}, {}, {}]", b, row, b, mx, cum)
+            });
+        }
         let mut qa = q.clone();
         let ra = c.call("Qmc::diagonal_update", || qa.diagonal_update(beta));
         let (mut mb, mut sb, mut rb) = (m0.clone(), st0.clone(), rng0.clone());
@@ -2093,6 +2139,21 @@ fn diff_generic(mode: &str, r: &mut SplitMix64, gs: &GenSpec, q: &Q, beta: f64, 
             c.res(check_config(&mb, &st0, &hv));
             c.res(check_nav(&mb, hv.nbonds));
             c.res(check_generic(&qa));
+            // spare slots beyond the sweep length do not matter
+            let (mut me, mut se, mut re) = (m0.clone(), st0.clone(), rng0.clone());
+            me.set_cutoff(max(cutoff, me.get_cutoff()) + 6);
+            if pooled(&mut c, "trait-level diagonal sweep (spare slots)", &mut me, |m| {
+                if gs.heatbath {
+                    m.make_heatbath_diagonal_update_with_rng_and_state_ref(cutoff, beta, &mut se, &ham, &bw, &mut re)
+                } else {
+                    m.make_diagonal_update_with_rng_and_state_ref(cutoff, beta, &mut se, &ham, &mut re)
+                }
+            })
+            .is_some()
+            {
+                c.eq("C08 sweep over `cutoff` slots of a longer container: operators", &opslist(&me), &opslist(&mb));
+                c.eq("C08 … rng", &re.s, &rb.s);
+            }
         }
         if manual {
             hit("HeatBathDiagonalUpdater::heat_bath_single_diagonal_update");
@@ -2201,6 +2262,18 @@ fn diff_generic(mode: &str, r: &mut SplitMix64, gs: &GenSpec, q: &Q, beta: f64, 
     }
 }
 
+/// an interaction registered AFTER steps were taken (a cached heat-bath table must not survive it)
+fn late_term(r: &mut SplitMix64, gs: &mut GenSpec, q: &mut Q) {
+    let v = r.below(gs.nvars as u64) as usize;
+    let c = *r.pick(&[0.5, 1.0, 2.0]);
+    let t = match r.below(3) {
+        0 => Term { ctor: 2, mat: vec![c, c], vars: vec![v] },
+        1 => Term { ctor: 0, mat: vec![c, c, c, c], vars: vec![v] },
+        _ => Term { ctor: 0, mat: vec![c, 0.5, 0.5, c], vars: vec![v] },
+    };
+    add_terms(q, &[t.clone()]).expect("legal interaction");
+    gs.terms.push(t);
+}
 fn mode_c06(r: &mut SplitMix64, n: usize) {
     for _ in 0..n {
         let (s, g, beta) = warm_ising(r, None);
@@ -2211,7 +2284,10 @@ fn mode_c06(r: &mut SplitMix64, n: usize) {
         inplace_ising(r, &s, &g, beta, 3);
     }
     for _ in 0..n {
-        let (gs, q, beta) = warm_generic(r);
+        let (mut gs, mut q, beta) = warm_generic(r);
+        if r.coin() {
+            late_term(r, &mut gs, &mut q);
+        }
         diff_generic("c06", r, &gs, &q, beta, false);
     }
 }
@@ -2219,7 +2295,10 @@ fn mode_c08(r: &mut SplitMix64, n: usize) {
     for _ in 0..n {
         let (s, g, beta) = warm_ising(r, None);
         diff_heatbath_ising("c08", &s, &g, beta, true);
-        let (gs, q, beta) = warm_generic(r);
+        let (mut gs, mut q, beta) = warm_generic(r);
+        if r.coin() {
+            late_term(r, &mut gs, &mut q);
+        }
         diff_generic("c08", r, &gs, &q, beta, true);
     }
 }
@@ -2387,6 +2466,12 @@ fn accessor_checks(r: &mut SplitMix64, c: &mut Chk, m: &mut FastOps, state: &[bo
     let occ = occupied(&s);
     let nvars = m.get_nvars();
     c.res(check_nav(m, nbonds));
+    if s.len() > 1 {
+        // the container only ever grows: a smaller value leaves everything as it is
+        let j0 = js(m);
+        m.set_cutoff(r.below(s.len() as u64) as usize);
+        c.ck(js(m) == j0 && m.get_cutoff() == s.len(), || "C12 OpContainer::set_cutoff with a smaller value changed the container".into());
+    }
     hits(&["RvbUpdater::constant_ops_on_var", "RvbUpdater::spin_flips_on_var"]);
     for v in 0..nvars {
         let mut ps = vec![777usize];
